@@ -45,7 +45,7 @@ def make_cc(case):
     cc.s = case.get('s', 19)
     cc.out_num_cores = 1
     cc.ni_num_cores = 1
-    for k in ('pdC', 'pdT', 'uTM', 'thetaTdeg', 'Fc', 'P', 'P_inc', 'T', 'T_inc'):
+    for k in ('pdC', 'pdT', 'uTM', 'thetaTdeg', 'Fc', 'P', 'P_inc', 'T', 'T_inc', 'betadeg', 'tLAdeg'):
         if k in case:
             setattr(cc, k, case[k])
     if case.get('Nxxtop') is not None:
@@ -415,6 +415,10 @@ def _partition_strategy(draw, tier='quick'):
 def _fext_strategy(draw, tier='quick'):
     case = draw(shell_case())
     case['forces'] = draw(st.lists(cforce(), min_size=0, max_size=4))
+    if case['forces'] and draw(st.integers(0, 2)) == 0:
+        # a constant and an incremented force acting at exactly the same point (a perturbation load on top of a proportional one)
+        f0 = case['forces'][0]
+        case['forces'].append(dict(draw(cforce()), x=f0['x'], thetadeg=f0['thetadeg'], inc=not f0['inc']))
     case['inc'] = draw(st.one_of(gen.fl(0.05, 1.), st.just(1.)))
     case['pts_layout'] = draw(st.sampled_from(['C', 'C', 'F', 'T', 'mixed']))
     case['prelude'] = None
